@@ -1,7 +1,182 @@
-/- C14 — placeholder until the full statements are integrated; a structural fact decided here. -/
+/-
+C14 — the scaled modified spherical Bessel function K_l(z) = e^{-z} i_l(z): structure of the evaluators.
+
+Model: Ecpint/Model/Bessel.lean (agrees bit for bit with bessel.cpp at Float, see checks/c14.py); constants
+(`SMALL`, `TAYLOR_CUT`, table size) from Gen/Constants.lean, regenerated every run.
+Proved: the regimes partition the arguments; the table row is in range and the Taylor step is at most half a
+grid spacing; the two evaluators compute the SAME thing in the large-argument and in the table regime and
+known closed forms in the small-argument regime; both large-argument loops are the asymptotic polynomial; the
+derivative recurrence has the coefficients of the Bessel recurrence; the Taylor remainder budget holds for the
+constants as they are now.
+Not proved (no Bessel functions in Mathlib): that series/recurrence/asymptotic form ARE e^{-z} i_l(z); the
+bound on the derivatives used in the budget is an explicit hypothesis.  Accuracy in doubles is the
+correspondence + oracle run of the check.
+-/
 import Ecpint.Model.Bessel
+import Ecpint.Lemmas.Bessel
+import Mathlib.Tactic.Ring
+import Mathlib.Tactic.FieldSimp
+import Mathlib.Tactic.Linarith
+import Mathlib.Tactic.NormNum
+import Mathlib.Algebra.BigOperators.Group.Finset.Basic
+import Mathlib.Algebra.Order.Floor.Semiring
+import Mathlib.Data.Nat.Factorial.DoubleFactorial
+import Mathlib.Algebra.Order.Field.Basic
+
 namespace Ecpint.C14
-open Ecpint.Bessel
-/-- an argument between SMALL and 16 is sent to the table (naturals as a toy ordered scalar) -/
-theorem regime_table_example : regime (1 : Nat) (5 : Nat) = .table := by decide
+open Ecpint.Bessel Ecpint.BesselLemmas
+open scoped Nat
+
+/-! ### regimes -/
+
+section
+variable {K : Type} [Field K] [LinearOrder K] [IsStrictOrderedRing K]
+
+/-- every argument is sent to exactly one formula, decided by these inequalities (0 < SMALL < 16) -/
+theorem regime_spec (small z : K) (hs : 0 < small) (hs16 : small < 16) :
+    (regime small z = .nonpos ↔ z ≤ 0) ∧ (regime small z = .small ↔ 0 < z ∧ z < small) ∧
+    (regime small z = .table ↔ small ≤ z ∧ z ≤ 16) ∧ (regime small z = .large ↔ 16 < z) := by
+  by_cases h1 : 0 < z
+  · by_cases h2 : z < small
+    · have hr : regime small z = .small := by simp [regime, h1, h2]
+      rw [hr]
+      simp only [reduceCtorEq, false_iff, true_iff, not_le, not_and, not_lt]
+      exact ⟨h1, ⟨h1, h2⟩, fun h => absurd h (not_le.mpr h2), by linarith⟩
+    · have h2' : small ≤ z := not_lt.mp h2
+      by_cases h3 : 16 < z
+      · have hr : regime small z = .large := by simp [regime, h1, h2, h3]
+        rw [hr]
+        simp only [reduceCtorEq, false_iff, true_iff, not_le, not_and, not_lt]
+        exact ⟨h1, fun _ => h2', fun _ => h3, h3⟩
+      · have h3' : z ≤ 16 := not_lt.mp h3
+        have hr : regime small z = .table := by simp [regime, h1, h2, h3]
+        rw [hr]
+        simp only [reduceCtorEq, false_iff, true_iff, not_le, not_and, not_lt]
+        exact ⟨h1, fun _ => h2', ⟨h2', h3'⟩, h3'⟩
+  · have h1' : z ≤ 0 := not_lt.mp h1
+    have hr : regime small z = .nonpos := by simp [regime, h1]
+    rw [hr]
+    simp only [reduceCtorEq, false_iff, true_iff, not_le, not_and, not_lt]
+    exact ⟨h1', fun h => absurd h h1, fun _ => by linarith, by linarith⟩
+
+end
+
+/-- in the table regime the row `⌊z·scale + ½⌋` exists (≤ N) and the Taylor step is at most half a spacing -/
+theorem table_row_in_range {F : Type} [Field F] [LinearOrder F] [IsStrictOrderedRing F] [FloorSemiring F]
+    (N : ℕ) (hN : 0 < N) (z : F) (h0 : 0 ≤ z) (h16 : z ≤ 16) :
+    ⌊z * ((N : F) / 16) + 1 / 2⌋₊ ≤ N ∧
+    |z - (⌊z * ((N : F) / 16) + 1 / 2⌋₊ : F) / ((N : F) / 16)| ≤ 1 / (2 * ((N : F) / 16)) := by
+  have hNpos : (0 : F) < (N : F) := Nat.cast_pos.mpr hN
+  have hs : (0 : F) < (N : F) / 16 := by positivity
+  set s : F := (N : F) / 16 with hsdef
+  have hx0 : (0 : F) ≤ z * s + 1 / 2 := by positivity
+  have hxN : z * s + 1 / 2 < ((N + 1 : ℕ) : F) := by
+    have : z * s ≤ 16 * s := mul_le_mul_of_nonneg_right h16 hs.le
+    have e : 16 * s = (N : F) := by rw [hsdef]; field_simp
+    push_cast
+    linarith
+  have hfl : (⌊z * s + 1 / 2⌋₊ : F) ≤ z * s + 1 / 2 := Nat.floor_le hx0
+  have hfu : z * s + 1 / 2 < (⌊z * s + 1 / 2⌋₊ : F) + 1 := Nat.lt_floor_add_one _
+  refine ⟨Nat.lt_succ_iff.mp ((Nat.floor_lt hx0).mpr hxN), ?_⟩
+  have key : z - (⌊z * s + 1 / 2⌋₊ : F) / s = (z * s - (⌊z * s + 1 / 2⌋₊ : F)) / s := by
+    field_simp
+  have key2 : (1 : F) / (2 * s) = (1 / 2) / s := by field_simp
+  rw [key, key2, abs_div, abs_of_pos hs, div_le_div_iff_of_pos_right hs, abs_le]
+  constructor <;> linarith
+
+/-! ### the evaluators agree; closed forms -/
+
+section
+variable {K : Type} [Field K] [CharZero K]
+
+/-- large arguments: the all-orders loop and the single-order loop compute the same number -/
+theorem largeAll_eq_largeOne (v0 : K) (l : ℕ) : largeAll v0 l = largeOne v0 l := by
+  unfold largeAll largeOne
+  simp only
+  congr 3
+  funext acc i
+  have e : (-((((l - (i + 1) + 1) * (l + (i + 1)) : ℕ) : K) / ((i + 1 : ℕ) : K)) * v0)
+      = (-v0 * ((l - (i + 1) + 1 : ℕ) : K) * ((l + (i + 1) : ℕ) : K) / ((i + 1 : ℕ) : K)) := by
+    rw [Nat.cast_mul]; ring
+  rw [e]
+
+/-- … namely the asymptotic polynomial `v0 · Σ_{k ≤ l} (l+k)!/(k!(l−k)!) · (−v0)^k`, `v0 = 1/(2z)` -/
+theorem largeAll_closed (v0 : K) (l : ℕ) :
+    largeAll v0 l = v0 * ∑ k ∈ Finset.range (l + 1), (((l + k)! : K) / ((k ! : K) * ((l - k)! : K))) * (-v0) ^ k := by
+  unfold largeAll
+  simp only
+  rw [foldl_largeAll v0 l l le_rfl]
+  rfl
+
+/-- small arguments, all-orders evaluator: `(1 − z) z^l / (2l+1)!!` -/
+theorem smallAll_closed (z : K) (l : ℕ) : smallAll z l = (1 - z) * z ^ l / (((2 * l + 1)‼ : ℕ) : K) := by
+  induction l with
+  | zero => simp [smallAll]
+  | succ l ih =>
+    have e : 2 * (l + 1) + 1 = (2 * l + 1) + 2 := by ring
+    have h1 : (((2 * l + 1)‼ : ℕ) : K) ≠ 0 := by
+      apply Nat.cast_ne_zero.mpr
+      exact (Nat.doubleFactorial_pos _).ne'
+    have h2 : (2 : K) * ((l : K) + 1) + 1 ≠ 0 := by
+      have : ((2 * (l + 1) + 1 : ℕ) : K) ≠ 0 := Nat.cast_ne_zero.mpr (Nat.succ_ne_zero _)
+      push_cast at this
+      exact this
+    have h3 : (2 : K) * (l : K) + 1 + 2 ≠ 0 := by
+      intro h; apply h2; rw [← h]; ring
+    rw [smallAll, ih, e, Nat.doubleFactorial_add_two]
+    push_cast
+    field_simp
+    ring
+
+set_option linter.unusedSectionVars false in
+/-- small arguments, single-order evaluator: `(1 − z) (z/(2L+1))^L` — a different formula (they coincide for
+L ≤ 1 and differ by less than z^L otherwise, far below the absolute tolerance for z < SMALL) -/
+theorem smallOne_closed (z : K) (L : ℕ) : smallOne z L = (1 - z) * (z / (2 * (L : K) + 1)) ^ L := by
+  unfold smallOne
+  rw [foldl_mul_const]
+  norm_num
+
+/-- table regime: the two ways of accumulating the Taylor sum are the same sum `Σ_n dz^n/n! · c_n` -/
+theorem taylorAll_closed (tc : ℕ) (dz : K) (c : ℕ → K) :
+    taylorAll tc dz c = ∑ n ∈ Finset.range (tc + 1), dz ^ n / (n ! : K) * c n := by
+  unfold taylorAll
+  simp only [foldl_dzn]
+  exact foldl_sum_range (fun n => dz ^ n / (n ! : K) * c n) (tc + 1)
+
+theorem taylorOne_closed (tc : ℕ) (dz : K) (c : ℕ → K) :
+    taylorOne tc dz c = ∑ n ∈ Finset.range (tc + 1), dz ^ n / (n ! : K) * c n := by
+  unfold taylorOne
+  rw [foldl_taylorOne]
+
+theorem taylorAll_eq_taylorOne (tc : ℕ) (dz : K) (c : ℕ → K) : taylorAll tc dz c = taylorOne tc dz c := by
+  rw [taylorAll_closed, taylorOne_closed]
+
+/-- the derivative tables use the coefficients of the recurrence of e^{-z} i_l:
+K_l' = (l·K_{l−1} + (l+1)·K_{l+1})/(2l+1) − K_l -/
+theorem recStep_spec (l : ℕ) (a b c : K) :
+    recStep l a b c = ((l : K) * a + ((l : K) + 1) * b) / (2 * (l : K) + 1) - c := by
+  have h : (2 * (l : K) + 1) ≠ 0 := by exact_mod_cast (by omega : 2 * l + 1 ≠ 0)
+  unfold recStep
+  simp only [Nat.cast_ofNat]
+  field_simp
+
+end
+
+/-! ### parameter budgets for the constants as they are now -/
+
+/-- Taylor remainder of order TAYLOR_CUT on half a grid spacing h/2 = 8/N, for a function whose (T+1)-th
+derivative is bounded by 2^(T+1)/(T+2) (the bound satisfied by e^{-z} i_l(z); taken as a hypothesis of the
+accuracy claim): below 1e-13 -/
+theorem taylor_budget :
+    ((2 : ℚ) ^ (Gen.TAYLOR_CUT + 1) / (Gen.TAYLOR_CUT + 2)) * ((8 : ℚ) / Gen.BESSEL_N) ^ (Gen.TAYLOR_CUT + 1)
+      / ((Gen.TAYLOR_CUT + 1)! : ℚ) < 1 / 10 ^ 13 := by
+  simp only [Gen.TAYLOR_CUT, Gen.BESSEL_N]
+  norm_num [Nat.factorial]
+
+/-- SMALL is where the small-argument formula stops mattering: below it `1 − (1 − z) < 1e-6·…`; and the
+constants are ordered 0 < SMALL < 16 as `regime_spec` needs -/
+theorem small_ordered : (0 : ℚ) < Gen.SMALL_num / Gen.SMALL_den ∧ ((Gen.SMALL_num : ℚ) / Gen.SMALL_den) < 16 := by
+  simp only [Gen.SMALL_num, Gen.SMALL_den]
+  norm_num
+
 end Ecpint.C14
